@@ -900,6 +900,146 @@ class ProgGen(object):
 # --------------------------------------------------------------------------
 # corpus: top-level statements and expressions of the stdlib and of genshi
 
+class ScopeGen(object):
+    """programs that exercise name binding and resolution: a small pool of names that are bound and loaded in
+    module, function, class, lambda and comprehension scopes, by every binding construct the code generator
+    accepts (assignment, augmented assignment, for, with-as, del, import with dotted names / aliases, def,
+    class, parameters of every kind, defaults / annotations / decorators / bases in the enclosing scope)"""
+
+    POOL = ['a', 'b', 'c', 'os', 'm', 'x', 'y', 'f', 'g', 'K']
+
+    def __init__(self, rng, class_dyn=0.3):
+        self.rng = rng
+        self.class_dyn = class_dyn       # how often a class body may read a name it binds
+
+    def nm(self):
+        return self.rng.choice(self.POOL)
+
+    def load(self):
+        return ast.Name(self.nm(), ast.Load())
+
+    def expr(self, d=0):
+        rng = self.rng
+        r = rng.random()
+        if d >= 3 or r < 0.35:
+            return self.load()
+        if r < 0.45:
+            return ast.BinOp(self.expr(d + 1), ast.Add(), self.expr(d + 1))
+        if r < 0.55:
+            return ast.Call(self.load(), [self.expr(d + 1) for _ in range(rng.choice([0, 1, 2]))], [])
+        if r < 0.62:
+            return ast.Attribute(self.expr(d + 1), rng.choice(['path', 'a', 'sep']), ast.Load())
+        if r < 0.68:
+            return ast.Subscript(self.expr(d + 1), self.expr(d + 1), ast.Load())
+        if r < 0.80:
+            return ast.Lambda(self.arguments(d, annotations=False), self.expr(d + 1))
+        if r < 0.95:
+            gens = []
+            for _ in range(rng.choice([1, 1, 2])):
+                gens.append(ast.comprehension(self.target(d, False), self.expr(d + 1),
+                                              [self.expr(d + 1) for _ in range(rng.choice([0, 0, 1]))], 0))
+            return (ast.ListComp if rng.random() < 0.5 else ast.GeneratorExp)(self.expr(d + 1), gens)
+        return ast.Tuple([self.expr(d + 1), self.expr(d + 1)], ast.Load())
+
+    def target(self, d, complex_=True):
+        rng = self.rng
+        r = rng.random()
+        if r < 0.6:
+            return ast.Name(self.nm(), ast.Store())
+        if r < 0.75:
+            return ast.Tuple([ast.Name(self.nm(), ast.Store()), ast.Name(self.nm(), ast.Store())], ast.Store())
+        if r < 0.82:
+            return ast.List([ast.Name(self.nm(), ast.Store()), ast.Starred(ast.Name(self.nm(), ast.Store()), ast.Store())], ast.Store())
+        if not complex_:
+            return ast.Name(self.nm(), ast.Store())
+        if r < 0.91:
+            return ast.Attribute(self.load(), 'a', ast.Store())
+        return ast.Subscript(self.load(), self.expr(d + 2), ast.Store())
+
+    def arguments(self, d, annotations=True):
+        rng = self.rng
+        names = rng.sample(self.POOL, rng.randrange(0, 5))
+        def arg(n):
+            return ast.arg(n, self.expr(d + 2) if annotations and rng.random() < 0.25 else None)
+        k = [rng.randrange(0, 4) for _ in names]
+        posonly = [arg(n) for n, q in zip(names, k) if q == 0][:1]
+        rest = [n for n in names if n not in [a.arg for a in posonly]]
+        args = [arg(n) for n in rest[:2]]
+        rest = rest[2:]
+        vararg = arg(rest.pop()) if rest and rng.random() < 0.4 else None
+        kwonly = [arg(rest.pop())] if rest and rng.random() < 0.5 else []
+        kwarg = arg(rest.pop()) if rest and rng.random() < 0.5 else None
+        ndef = rng.randrange(0, len(posonly) + len(args) + 1)
+        return ast.arguments(posonlyargs=posonly, args=args, vararg=vararg, kwonlyargs=kwonly,
+                             kw_defaults=[self.expr(d + 2) if rng.random() < 0.6 else None for _ in kwonly],
+                             kwarg=kwarg, defaults=[self.expr(d + 2) for _ in range(ndef)])
+
+    def body(self, d, n=None):
+        return [self.stmt(d) for _ in range(n or self.rng.choice([1, 2, 2, 3]))]
+
+    def stmt(self, d):
+        rng = self.rng
+        r = rng.random()
+        tp = dict(type_params=[]) if hasattr(ast, 'TypeVar') else {}
+        if d >= 3:
+            r = r * 0.5
+        if r < 0.14:
+            return ast.Assign([self.target(d) for _ in range(rng.choice([1, 1, 2]))], self.expr(1))
+        if r < 0.19:
+            t = self.target(d)
+            if isinstance(t, (ast.Tuple, ast.List)):
+                t = ast.Name(self.nm(), ast.Store())
+            return ast.AugAssign(t, ast.Add(), self.expr(1))
+        if r < 0.27:
+            return ast.Expr(self.expr(0))
+        if r < 0.31:
+            return ast.Return(self.expr(1)) if rng.random() < 0.8 else ast.Pass()
+        if r < 0.35:
+            t = self.target(d)
+            if isinstance(t, ast.List):
+                t = ast.Name(self.nm(), ast.Store())
+            for n in ast.walk(t):
+                if isinstance(getattr(n, 'ctx', None), ast.Store):
+                    n.ctx = ast.Del()
+            return ast.Delete([t])
+        if r < 0.42:
+            als = [ast.alias(rng.choice(['os', 'os.path', 'm.x.y', 'a', 'b.c']), rng.choice([None, None, 'm', 'x']))
+                   for _ in range(rng.choice([1, 1, 2]))]
+            return ast.Import(als)
+        if r < 0.46:
+            return ast.ImportFrom(rng.choice(['os', 'm.x']), [ast.alias(rng.choice(['path', 'a', 'y']), rng.choice([None, 'b', 'g']))
+                                                               for _ in range(rng.choice([1, 2]))], 0)
+        if r < 0.50:
+            return ast.Assert(self.expr(1), self.expr(1) if rng.random() < 0.3 else None)
+        if r < 0.56:
+            return ast.If(self.expr(1), self.body(d + 1), self.body(d + 1) if rng.random() < 0.4 else [])
+        if r < 0.62:
+            return ast.For(self.target(d), self.expr(1), self.body(d + 1), self.body(d + 1) if rng.random() < 0.3 else [])
+        if r < 0.66:
+            return ast.While(self.expr(1), self.body(d + 1), self.body(d + 1) if rng.random() < 0.3 else [])
+        if r < 0.72:
+            items = [ast.withitem(self.expr(1), self.target(d) if rng.random() < 0.6 else None) for _ in range(rng.choice([1, 1, 2]))]
+            return ast.With(items, self.body(d + 1))
+        if r < 0.78:
+            hs = [ast.ExceptHandler(self.expr(2) if rng.random() < 0.8 else None, None, self.body(d + 1))
+                  for _ in range(rng.choice([0, 1, 1, 2]))]
+            hs.sort(key=lambda h: h.type is None)
+            while sum(1 for h in hs if h.type is None) > 1:
+                hs.pop()
+            return ast.Try(self.body(d + 1), hs, self.body(d + 1) if hs and rng.random() < 0.3 else [],
+                           self.body(d + 1) if not hs or rng.random() < 0.3 else [])
+        if r < 0.90:
+            return ast.FunctionDef(self.nm(), self.arguments(d), self.body(d + 1),
+                                   [self.expr(2) for _ in range(rng.choice([0, 0, 1]))],
+                                   self.expr(2) if rng.random() < 0.15 else None, None, **tp)
+        return ast.ClassDef(self.nm(), [self.expr(2) for _ in range(rng.choice([0, 0, 1]))],
+                            [ast.keyword('metaclass', self.expr(2))] if rng.random() < 0.15 else [],
+                            self.body(d + 1), [self.expr(2) for _ in range(rng.choice([0, 0, 1]))], **tp)
+
+    def program(self):
+        return ast.Module(self.body(0, self.rng.choice([1, 2, 3, 4])), [])
+
+
 def corpus_files(repo):
     stdlib = sysconfig.get_paths()['stdlib']
     out = []
